@@ -16,6 +16,7 @@ RULES = {
     "R-07.2": "every field stored by an immutable class's __init__ has an immutable kind (validator result, tuple/float/int/str/bytes, enum make, constify/Dict, constant, Name) – never a bare unvalidated parameter",
     "R-07.3": "Rdata.__eq__ and __hash__ derive from the same to_digestable image; ordering dunders follow the operator table over _cmp; _cmp is a mirrored three-way comparison of the digestable forms",
     "R-07.4": "Set methods that mutate self.items while iterating the other operand are guarded by `self is other` or iterate a copy",
+    "R-07.9": "the copying forms of the set algebra copy the LEFT operand: no method of dns.set.Set rebinds `self` (swapping operands to 'start from the smaller one' changes the result's order, its class - RRset vs Rdataset - and its rdtype/name)",
     "R-07.8": "an immutable wrapper copies what it wraps: dns.immutable.Dict(..., no_copy=True) is used only where the wrapped mapping's owner is retired (the listed site), never by ImmutableRdataset / record classes",
     "R-07.7": "items enter a Set's `items` only through Set.add (the hook Rdataset/RRset override to refuse foreign records, replace singletons and minimise the TTL) or by copying an already-valid set in _clone/__init__; every other growing operation reaches them via self.add / self.union_update",
     "R-07.5": "Rdataset.add: no refusal (raise) is reachable after the first write to self",
@@ -430,6 +431,15 @@ def run(model, rep, tier):
                 else:
                     rep.bad("R-07.8", f.qualname, where(f, c), f"`{src(c)[:60]}` wraps the caller's mapping without copying it: the 'immutable' value changes when the source is mutated afterwards", stmt="dict-copy")
     rep.floor("R-07.8", n_dict, 3)
+    n_sm = 0
+    for m_ in sorted(model.cls("dns.set.Set").methods.values(), key=lambda g: g.qualname):
+        n_sm += 1
+        for x in ast.walk(m_.node):
+            if isinstance(x, ast.Name) and x.id == "self" and isinstance(x.ctx, ast.Store):
+                rep.bad("R-07.9", m_.qualname, where(m_, x), "`self` is rebound: the result is cloned from the other operand, so it takes that operand's order, class and attributes (an RRset & Rdataset "
+                        "loses its owner name; the in-place and copying forms disagree)", stmt="self-rebound")
+    rep.floor("R-07.9", n_sm, 20)
+    rep.ok("R-07.9", "dns.set.Set", "dns/set.py", f"none of {n_sm} methods rebinds self", stmt="no-self-rebinding")
     # the wrapper itself: it aliases its argument only when the caller asked for it (no_copy) - every other path copies into a fresh mapping
     di = model.func("dns.immutable.Dict.__init__")
     cdi = CFG(di.node, implicit_exc=False)
@@ -451,6 +461,8 @@ def run(model, rep, tier):
 
 
 WITNESSES = [
+    {"id": "c07-intersection-swaps-operands", "rule": "R-07.9", "file": "dns/set.py", "expect": "fires",
+     "old": "        obj = self._clone()\n        obj.intersection_update(other)", "new": "        if len(other.items) < len(self.items):\n            self, other = other, self\n        obj = self._clone()\n        obj.intersection_update(other)"},
     {"id": "c07-dict-aliases-without-no-copy", "rule": "R-07.8", "file": "dns/immutable.py", "expect": "fires",
      "old": "        if no_copy and isinstance(dictionary, collections.abc.MutableMapping):", "new": "        if no_copy or isinstance(dictionary, collections.abc.MutableMapping):"},
     {"id": "c07-bitmap-keeps-callers-windows", "rule": "R-07.2", "file": "dns/rdtypes/util.py", "expect": "fires",
